@@ -153,6 +153,87 @@ MUTANTS = [
      [("src/main.rs", "let from = self.forced_from.or_else(|| path.extension_format());", "let from = path.extension_format().or(self.forced_from);")]),
     ("r9-result-ignored", "violations", "R9", "C09", "R09.2", "the first row's format is returned whatever its trial says",
      [("src/detect.rs", "\t\tif input_matches(input.borrow_mut())? {\n\t\t\treturn Ok(Some(format));\n\t\t}\n", "\t\tlet _ = input_matches(input.borrow_mut())?;\n\t\treturn Ok(Some(format));\n")]),
+    # ---- round 5: idiom-conversion refactorings R31..R39
+    ("r31-toml-first", "violations", "R31", "C05", "R05.4", "format table starts with the buffering TOML trial",
+     [("src/detect.rs", "\tFormat::Msgpack,\n", "\tFormat::Toml,\n"), ("src/detect.rs", "\tFormat::Toml,\n];", "\tFormat::Msgpack,\n];")]),
+    ("r31-dispatch-mispaired", "violations", "R31", "C09", "R09.2", "dispatcher runs the msgpack trial for the Json entry and vice versa",
+     [("src/detect.rs", "\t\tFormat::Json => crate::json::input_matches(input),\n\t\tFormat::Msgpack => crate::msgpack::input_matches(input),", "\t\tFormat::Json => crate::msgpack::input_matches(input),\n\t\tFormat::Msgpack => crate::json::input_matches(input),")]),
+    ("r31-fixed-answer", "violations", "R31", "C09", "R09.2", "whatever entry matched, detection answers Json",
+     [("src/detect.rs", "\t\t\treturn Ok(Some(candidate));", "\t\t\treturn Ok(Some(Format::Json));")]),
+    ("r31-none-is-json", "violations", "R31", "C09", "R09.5", "undetected input silently falls back to JSON instead of the documented error",
+     [("src/lib.rs", "detect::detect_format(input)?.ok_or_else(|| \"unable to detect input format\".into())", "Ok(detect::detect_format(input)?.unwrap_or(Format::Json))")]),
+    ("r32-skip-one", "violations", "R32", "C03", "R03.4", "try_for_each closure can finish an iteration without forwarding its document",
+     [("src/json.rs", "\t\t\tde.into_iter::<transcode::Value>()\n\t\t\t\t.try_for_each(|value| output.transcode_value(value?))?;", "\t\t\tlet mut skip = b.starts_with(b\" \");\n\t\t\tde.into_iter::<transcode::Value>().try_for_each(|value| {\n\t\t\t\tlet value = value?;\n\t\t\t\tif std::mem::take(&mut skip) {\n\t\t\t\t\treturn Ok(());\n\t\t\t\t}\n\t\t\t\toutput.transcode_value(value)\n\t\t\t})?;")]),
+    ("r32-for-each-swallows", "violations", "R32", "C03", "R03.4", "for_each cannot stop at a failed document",
+     [("src/json.rs", "\t\t\tde.into_iter::<transcode::Value>()\n\t\t\t\t.try_for_each(|value| output.transcode_value(value?))?;", "\t\t\tde.into_iter::<transcode::Value>().for_each(|value| {\n\t\t\t\tif let Ok(value) = value {\n\t\t\t\t\toutput.transcode_value(value).ok();\n\t\t\t\t}\n\t\t\t});")]),
+    ("r32-io-inverted", "violations", "R32", "C09", "R09.3", "nested if inverted: syntax errors become hard detection errors",
+     [("src/json.rs", "\t\t\tif err.is_io() {\n\t\t\t\tErr(err.into())\n\t\t\t} else {\n\t\t\t\tOk(false)\n\t\t\t}", "\t\t\tif err.is_io() {\n\t\t\t\tOk(false)\n\t\t\t} else {\n\t\t\t\tErr(err.into())\n\t\t\t}")]),
+    ("r32-eof-inverted", "violations", "R32", "C09", "R09.3", "UnexpectedEof becomes the hard error, real I/O errors are swallowed",
+     [("src/msgpack.rs", "if err.kind() == io::ErrorKind::UnexpectedEof {", "if err.kind() != io::ErrorKind::UnexpectedEof {")]),
+    ("r33-kind-match-wrong", "violations", "R33", "C09", "R09.7", "nested match skips UnexpectedEof instead of InvalidData",
+     [("src/yaml.rs", "\t\t\tio::ErrorKind::InvalidData => Ok(false),", "\t\t\tio::ErrorKind::UnexpectedEof => Ok(false),")]),
+    ("r33-cap-removed", "violations", "R33", "C05", "R05.3", "bounded_input no longer gives up at the cap",
+     [("src/toml.rs", "Ok((prefix.len() < SIZE_CUTOFF).then_some(prefix))", "Ok(Some(prefix))")]),
+    ("r33-fast-path-ungated", "violations", "R33", "C02", "R02.1", "UTF-8 fast path no longer asks the encoding detector",
+     [("src/yaml.rs", "Ok(s) if matches!(Encoding::detect(&b), Encoding::Utf8) => {", "Ok(s) => {")]),
+    ("r33-replace-false", "violations", "R33", "C08", "R08.1", "one-shot flag re-armed",
+     [("src/toml.rs", "mem::replace(&mut self.used, true)", "mem::replace(&mut self.used, false)")]),
+    ("r34-guard-flipped", "violations", "R34", "C04", "R04.1", "early return taken on the wrong side: the subtraction can underflow",
+     [("src/input.rs", "\t\tif size <= already_captured {", "\t\tif size >= already_captured {")]),
+    ("r34-eof-unconditional", "violations", "R34", "C09", "R09.6", "end-of-input recorded after every bounded capture",
+     [("src/input.rs", "\t\tif stopped_short {\n\t\t\tself.source_eof = true;\n\t\t}", "\t\tlet _ = stopped_short;\n\t\tself.source_eof = true;")]),
+    ("r34-take-without-rewind", "violations", "R34", "C09", "R09.1", "rewind_and_take forgets to rewind",
+     [("src/input.rs", "\t\tlet Self(mut inner) = self;\n\t\tinner.rewind();\n\t\tinner", "\t\tlet Self(inner) = self;\n\t\tinner")]),
+    ("r34-prefix-dropped", "violations", "R34", "C09", "R09.4", "captured prefix is not replayed in front of the source",
+     [("src/input.rs", "\t\t\t(false, true) => Input::Reader(source),", "\t\t\t(false, _) => Input::Reader(source),")]),
+    ("r34-split-unbounded", "violations", "R34", "C04", "R04.1", "split point no longer capped by the buffer length",
+     [("src/input.rs", "let prefix_size = buf.len().min(self.captured_unread_size());", "let prefix_size = self.captured_unread_size();")]),
+    ("r35-utf16-first", "violations", "R35", "C07", "R07.2", "UTF-16 patterns tried before the UTF-32 ones",
+     [("src/yaml/encoding.rs", "\t\t\t[0, 0, 0xFE, 0xFF, ..] | [0, 0, 0, _, ..] => Encoding::Utf32Big,\n\t\t\t[0xFF, 0xFE, 0, 0, ..] | [_, 0, 0, 0, ..] => Encoding::Utf32Little,\n\t\t\t[0xFE, 0xFF, ..] | [0, _, ..] => Encoding::Utf16Big,\n\t\t\t[0xFF, 0xFE, ..] | [_, 0, ..] => Encoding::Utf16Little,", "\t\t\t[0xFE, 0xFF, ..] | [0, _, ..] => Encoding::Utf16Big,\n\t\t\t[0xFF, 0xFE, ..] | [_, 0, ..] => Encoding::Utf16Little,\n\t\t\t[0, 0, 0xFE, 0xFF, ..] | [0, 0, 0, _, ..] => Encoding::Utf32Big,\n\t\t\t[0xFF, 0xFE, 0, 0, ..] | [_, 0, 0, 0, ..] => Encoding::Utf32Little,")]),
+    ("r35-bom-anywhere", "violations", "R35", "C07", "R07.4", "a U+FEFF anywhere in the text is dropped",
+     [("src/yaml/encoding.rs", "if at_start && matches!(next, Some(Ok('\\u{FEFF}'))) {", "if matches!(next, Some(Ok('\\u{FEFF}'))) {")]),
+    ("r35-started-rearmed", "violations", "R35", "C07", "R07.4", "start flag re-armed on every call",
+     [("src/yaml/encoding.rs", "!std::mem::replace(&mut self.started, true)", "!std::mem::replace(&mut self.started, false)")]),
+    ("r35-trail-as-lead", "violations", "R35", "C07", "R07.5", "part of the trailing-surrogate range is accepted as a leading unit",
+     [("src/yaml/encoding.rs", "if matches!(lead, 0xDC00..=0xDFFF) {", "if matches!(lead, 0xDD00..=0xDFFF) {")]),
+    ("r35-surrogate-unchecked", "violations", "R35", "C07", "R07.3", "trailing surrogates reach from_u32_unchecked",
+     [("src/yaml/encoding.rs", "if !matches!(lead, 0xD800..=0xDFFF) {", "if !matches!(lead, 0xD800..=0xDBFF) {")]),
+    ("r35-prefix-short", "violations", "R35", "C07", "R07.6", "detection prefix helper reads only two bytes",
+     [("src/yaml/encoding.rs", "reader.by_ref().take(Encoding::DETECT_LEN as u64)", "reader.by_ref().take(2)")]),
+    ("r36-helper-captures-de", "violations", "R36", "C11", "R11.2", "shared helper records the deserializer as the failing side",
+     [("src/transcode/stream.rs", "\t\tself.0.capture_error(ErrorSource::Ser, ser_err);\n\t\tde::Error::custom(TRANSLATION_FAILED)", "\t\tself.0.capture_error(ErrorSource::De, ser_err);\n\t\tde::Error::custom(TRANSLATION_FAILED)")]),
+    ("r36-arms-swapped", "violations", "R36", "C11", "R11.3", "map_err closure builds the two-sided error on the deserializer arm",
+     [("src/transcode/stream.rs", "\t\t\tErrorSource::Ser => Error::Ser(visitor.0.into_error().unwrap(), de_err),\n\t\t\tErrorSource::De => Error::De(de_err),", "\t\t\tErrorSource::De => Error::Ser(visitor.0.into_error().unwrap(), de_err),\n\t\t\tErrorSource::Ser => Error::De(de_err),")]),
+    ("r37-replace-false", "violations", "R37", "C14", "R14.3", "stdin flag re-armed by the short-circuit guard",
+     [("src/main.rs", "mem::replace(&mut stdin_used, true)", "mem::replace(&mut stdin_used, false)")]),
+    ("r37-guard-negated", "violations", "R37", "C14", "R14.3", "guard looks at every input except stdin",
+     [("src/main.rs", "let stdin_reused = matches!(input, Input::Stdin) &&", "let stdin_reused = !matches!(input, Input::Stdin) &&")]),
+    ("r37-mmap-ignores-from", "violations", "R37", "C14", "R14.1", "mapped files are always auto-detected",
+     [("src/main.rs", "Input::Mmap(map) => translator.translate_slice(&map, from),", "Input::Mmap(map) => translator.translate_slice(&map, None),")]),
+    ("r37-usage-exit-1", "violations", "R37", "C13", "R13.1", "usage-error helper exits 1",
+     [("src/main.rs", "\twrite_short_help(stderr);\n\tprocess::exit(2);", "\twrite_short_help(stderr);\n\tprocess::exit(1);")]),
+    ("r37-t-into-from", "violations", "R37", "C14", "R14.1", "-t stores into the -f slot",
+     [("src/main.rs", "Self::set_format_once(&mut to, &mut parser, repeated)?;", "Self::set_format_once(&mut from, &mut parser, repeated)?;")]),
+    ("r37-dup-guard-removed", "violations", "R37", "C13", "R13.5", "a repeated option is accepted",
+     [("src/main.rs", "\t\tif slot.is_some() {\n\t\t\treturn Err(repeated.into());\n\t\t}\n", "\t\tlet _ = repeated;\n")]),
+    ("r38-end-event-ignored", "violations", "R38", "C05", "R05.5", "DOCUMENT_END no longer cuts the captured bytes",
+     [("src/yaml/chunker.rs", "YAML_DOCUMENT_END_EVENT => self.finish_document(event.end_offset()),", "YAML_DOCUMENT_END_EVENT => {}")]),
+    ("r38-wrap-kind-other", "violations", "R38", "C09", "R09.7", "wrapping helper uses ErrorKind::Other",
+     [("src/yaml/chunker.rs", "io::Error::new(io::ErrorKind::InvalidData, err)", "io::Error::new(io::ErrorKind::Other, err)")]),
+    ("r38-wrap-replaces", "violations", "R38", "C12", "R12.2", "wrapping helper drops the underlying error",
+     [("src/yaml/chunker.rs", "io::Error::new(io::ErrorKind::InvalidData, err)", "{\n\t\tdrop(err);\n\t\tio::Error::new(io::ErrorKind::InvalidData, \"invalid YAML stream\")\n\t}")]),
+    ("r38-kind-overwritten", "violations", "R38", "C10", "R10.2", "every content event overwrites the document kind",
+     [("src/yaml/chunker.rs", "\t\tif self.current_document_kind.is_none() {\n\t\t\tself.current_document_kind = Some(kind);\n\t\t}", "\t\tself.current_document_kind = Some(kind);")]),
+    ("r38-stash-ignored", "violations", "R38", "C12", "R12.2", "the reader's own error is discarded in favour of libyaml's",
+     [("src/yaml/chunker/parser.rs", "\t\t\tSome(read_err) => read_err,\n\t\t\tNone => io::Error::new(io::ErrorKind::InvalidData, parser_err),", "\t\t\t_ => io::Error::new(io::ErrorKind::InvalidData, parser_err),")]),
+    ("r39-wrong-kind", "violations", "R39", "C16", "R16.2", "matches! tests the wrong ErrorKind",
+     [("src/pipecheck.rs", "matches!(err.kind(), io::ErrorKind::BrokenPipe)", "matches!(err.kind(), io::ErrorKind::WriteZero)")]),
+    ("r39-two-kinds", "violations", "R39", "C16", "R16.2", "a full device is treated like a broken pipe",
+     [("src/pipecheck.rs", "matches!(err.kind(), io::ErrorKind::BrokenPipe)", "matches!(err.kind(), io::ErrorKind::BrokenPipe | io::ErrorKind::WriteZero)")]),
+    ("r39-no-terminate", "violations", "R39", "C16", "R16.2", "broken pipe detected but the process is not terminated",
+     [("src/pipecheck.rs", "\t\tif is_broken_pipe(err) {\n\t\t\tterminate_by_sigpipe();\n\t\t}\n", "\t\tlet _ = is_broken_pipe(err);\n")]),
+    ("r39-bail-exit-0", "violations", "R39", "C13", "R13.1", "shared bail macro exits 0",
+     [("src/bail.rs", "\t\t::std::process::exit(1);", "\t\t::std::process::exit(0);")]),
 ]
 
 
